@@ -17,12 +17,12 @@ LEVEL = "exploration"
 RULE = (
     "complete domain: nbits in {1,2,4} x order spellings x all 256 byte values at every position of arrays of length "
     "1..5 (neighbours = complement) + empty array; all 256 field tuples per byte through pack; round trips; with/without "
-    "output buffer; rejection matrix (dtype, nbits, order, buffer size); default order through FileWriter/FileReader; thorough adds one array per (depth, order) "
+    "output buffer; long arrays (4097 ... 1 048 583 packed bytes, hashed and saturated-run data, every element compared); rejection matrix (dtype, nbits, order, buffer size); default order through FileWriter/FileReader; thorough adds one array per (depth, order) "
     "whose unpacked length is 2**31 + 4099*(8/nbits), every element compared (index arithmetic beyond the int32 range). "
     "Non-trivial = every case except the empty-array ones"
 )
 ASSUMPTIONS = ["reference = bit-field definition evaluated with Python integers (vf.core.fixtures.ref_pack/ref_unpack)"]
-REQUIRED_OUTCOMES = ["unpack/ok", "pack/ok", "roundtrip/ok", "reject/ok", "file/ok"]
+REQUIRED_OUTCOMES = ["unpack/ok", "pack/ok", "roundtrip/ok", "reject/ok", "file/ok", "long/ok"]
 MAX_WORKERS = 12
 
 ORDERS = ["big", "little", "b", "l", "bigendian", "L"]
@@ -40,6 +40,8 @@ def shards(tier: str, seed: int) -> list:
             out.append({"kind": "kernels", "nbits": nbits, "order": order, "maxlen": b["maxlen"]})
         out.append({"kind": "reject", "nbits": nbits})
         out.append({"kind": "file", "nbits": nbits})
+        # scale lane: lengths around and beyond 2**16 packed bytes (not multiples of any tile size), every element compared
+        out.append({"kind": "long", "nbits": nbits, "lengths": [4097, 65535, 65536, 65537, 84000, 131073, 200003, 1048583] + ([16777259] if tier == "thorough" else [])})
     if tier == "thorough":
         # index-width boundary: one array per (depth, order) whose unpacked length crosses 2**31; one shard, run serially (about 3 GB at a time)
         out.append({"kind": "huge", "cases": [[nb, o] for nb in b["nbits"] for o in ("big", "little")]})
@@ -58,6 +60,8 @@ def run_shard(shard: dict, ctx, res, only=None) -> None:
         _reject(shard, res, only)
     elif kind == "huge":
         _huge(shard, res, only)
+    elif kind == "long":
+        _long(shard, res, only)
     else:
         _file(shard, ctx, res, only)
 
@@ -179,6 +183,44 @@ def _vec_unpack(chunk: np.ndarray, nbits: int, co: str) -> np.ndarray:
         sh = (8 - nbits * (j + 1)) if co == "big" else nbits * j
         out[:, j] = (chunk >> sh) & mask
     return out.reshape(-1)
+
+
+def _long(shard, res, only):
+    from sigpyproc.io import bits
+
+    nbits = shard["nbits"]
+    per = 8 // nbits
+    for n in shard["lengths"]:
+        for co in ("big", "little"):
+            for dclass in ("hashed", "saturated_runs"):
+                if only is not None and [n, co, dclass] != only:
+                    continue
+                case = {"shard": shard, "inner": [n, co, dclass]}
+                res.evaluations += 1
+                i = np.arange(n, dtype=np.uint64)
+                arr = ((i * np.uint64(2654435761)) >> np.uint64(7)).astype(np.uint8)
+                if dclass == "saturated_runs":
+                    arr[(i // np.uint64(97)) % np.uint64(3) == 0] = 0xFF  # runs of bytes with every field at the top level
+                want = _vec_unpack(arr, nbits, co)
+                try:
+                    got = bits.unpack(arr, nbits, bitorder=co)
+                    buf = np.full(n * per, 0xAA, dtype=np.uint8)
+                    got2 = bits.unpack(arr, nbits, buf, bitorder=co)
+                    back = bits.pack(want, nbits, bitorder=co)
+                except Exception as e:  # noqa: BLE001
+                    res.violation({"site": "bits.pack/unpack", "symptom": f"raised {type(e).__name__} on a long array"}, case, repr(e))
+                    continue
+                bad = None
+                for name, g, w in (("unpack", got, want), ("unpack into a caller buffer", got2, want), ("pack", back, arr)):
+                    if g.shape != w.shape or not np.array_equal(g, w):
+                        k = int(np.flatnonzero(g[: min(g.size, w.size)] != w[: min(g.size, w.size)])[0]) if g.size and (g[: min(g.size, w.size)] != w[: min(g.size, w.size)]).any() else min(g.size, w.size)
+                        bad = (name, f"{name}: {n} packed bytes, first wrong element {k} (of {w.size}); got {g[k:k+8].tolist()} want {w[k:k+8].tolist()}")
+                        break
+                if bad:
+                    res.violation({"site": "bits." + bad[0].split()[0], "symptom": "wrong values on a long array", "nbits": nbits, "order": co}, case, bad[1])
+                    continue
+                res.outcome("long/ok")
+                res.nontrivial += 1
 
 
 def _huge(shard, res, only):
